@@ -37,12 +37,12 @@ var alphabets = func() [][]string {
 }()
 
 type graphCase struct {
-	N     int     `json:"n"`
+	N     int      `json:"n"`
 	Edges [][2]int `json:"edges"` // [i,j]: stage i depends on stage j
-	Order []int   `json:"order"` // declaration order
-	Desc  bool    `json:"desc"`  // dependency lists in descending order
-	Route string  `json:"route"`
-	Alpha int     `json:"alpha,omitempty"` // naming alphabet
+	Order []int    `json:"order"` // declaration order
+	Desc  bool     `json:"desc"`  // dependency lists in descending order
+	Route string   `json:"route"`
+	Alpha int      `json:"alpha,omitempty"` // naming alphabet
 }
 
 func (c graphCase) String() string {
